@@ -59,10 +59,21 @@ def _exit(fn):
     # exclude test as `if exclude is not None: if issubclass(type_, exclude): return False`.
     known = {
         "type_ is None": "noneType",
-        "getattr(logger._core.thread_locals, 'already_logging_exception', False)": "guardFlag",
         "not issubclass(type_, exception)": "notSubclass",
         "exclude is not None and issubclass(type_, exclude)": "excluded",
     }
+    store = [None]     # the object whose attribute `already_logging_exception` is the guard flag (READ, not assumed)
+
+    def test_name(d):
+        # `getattr(<store>, 'already_logging_exception', False)`: which object carries the flag is extracted
+        if isinstance(d, ast.Call) and U(d.func) == "getattr" and len(d.args) == 3 and not d.keywords \
+                and isinstance(d.args[1], ast.Constant) and d.args[1].value == "already_logging_exception" \
+                and isinstance(d.args[2], ast.Constant) and d.args[2].value is False:
+            if store[0] not in (None, U(d.args[0])):
+                raise Unsupported("guard flag read from two different objects")
+            store[0] = U(d.args[0])
+            return "guardFlag"
+        return known.get(U(d))
 
     def falsy_return(stmts):
         return len(stmts) == 1 and isinstance(stmts[0], ast.Return) and (
@@ -87,7 +98,7 @@ def _exit(fn):
             tests.append("excluded")
             i += 1
             continue
-        names = [known.get(U(d)) for d in disjuncts(st.test)]
+        names = [test_name(d) for d in disjuncts(st.test)]
         if None in names or not falsy_return(st.body):
             break           # not an early return of known tests: judged as an ordinary statement below
         tests += names
@@ -96,7 +107,7 @@ def _exit(fn):
 
     # ---- the effectful tail.  Local names are irrelevant (alpha-renaming); single-assignment aliases of
     # `self._from_decorator` and `logger._core.thread_locals` and of the options list are looked through.
-    FD, TL = "self._from_decorator", "logger._core.thread_locals"
+    FD, TL = "self._from_decorator", (store[0] or "logger._core.thread_locals")
     alias = {}                    # local name -> canonical expression text
     depth_name = options_name = None
     optlist = None                # canonical text of the list handed to _log, once built
@@ -232,7 +243,54 @@ def _exit(fn):
         raise Unsupported("unexpected statement in __exit__ (phase %d): %s" % (phase, s))
     if phase != 7 or depth_incr is None:
         raise Unsupported("__exit__ misses options/depth/_frames/log/return")
-    return tests, effects, depth_incr, ret_expr, default_frames, onerror_test[0]
+    return tests, effects, depth_incr, ret_expr, default_frames, onerror_test[0], TL
+
+
+def _fn_kind(fn):
+    """the kind of function object a `def` statement creates (what `inspect.is*function` will say of it):
+    `async` or not, with a `yield` / `yield from` of its own (nested scopes do not count) or not"""
+    has_yield = [False]
+
+    def walk(node):
+        for child in ast.iter_child_nodes(node):
+            if isinstance(child, (ast.FunctionDef, ast.AsyncFunctionDef, ast.Lambda, ast.ClassDef)):
+                continue        # a scope of its own (a class body cannot yield on behalf of the function either)
+            if isinstance(child, (ast.Yield, ast.YieldFrom)):
+                has_yield[0] = True
+            walk(child)
+    for st in fn.body:
+        if isinstance(st, (ast.FunctionDef, ast.AsyncFunctionDef, ast.ClassDef)):
+            continue
+        if isinstance(st, (ast.Yield, ast.YieldFrom)):
+            has_yield[0] = True
+        walk(st)
+    if fn.decorator_list:
+        raise Unsupported("decorated wrapper function: its kind is not syntactic")
+    if isinstance(fn, ast.AsyncFunctionDef):
+        return "asyncgen" if has_yield[0] else "coroutine"
+    return "generator" if has_yield[0] else "plain"
+
+
+def _flag_store(tree, store):
+    """which storage the guard flag uses, from the expression `__exit__` reads/writes it through"""
+    if store == "logger._core.thread_locals":
+        # one flag per thread iff the Core creates a `threading.local()` (also after unpickling)
+        core = [n for n in tree.body if isinstance(n, ast.ClassDef) and n.name == "Core"]
+        if len(core) != 1:
+            raise Unsupported("class Core not found")
+        assigned = []
+        for node in ast.walk(core[0]):
+            if isinstance(node, ast.Assign) and any(U(t) == "self.thread_locals" for t in node.targets):
+                assigned.append(U(node.value))
+            elif isinstance(node, (ast.AugAssign, ast.AnnAssign)) and U(node.target) == "self.thread_locals":
+                assigned.append("?")
+        if not assigned or any(a != "threading.local()" for a in assigned):
+            raise Unsupported("Core.thread_locals is not always a threading.local(): %s" % assigned)
+        return "threadLocal"
+    parts = store.split(".")
+    if parts[0] in ("logger", "self") and all(p.isidentifier() for p in parts) and "thread_locals" not in parts:
+        return "shared"          # an attribute of an object every thread sees (Core, Logger, the Catcher)
+    raise Unsupported("guard flag storage not understood: " + store)
 
 
 def _call_args_ok(call):
@@ -262,13 +320,24 @@ def _wrapper_fn(fn, catcher_name):
         raise Unsupported("inside with: " + U(w.body[0]))
     if U(body[1]) != "return default":
         raise Unsupported("after with: " + U(body[1]))
-    return isinstance(fn, ast.AsyncFunctionDef), inner, "returnDefault"
+    return isinstance(fn, ast.AsyncFunctionDef), inner, "returnDefault", _fn_kind(fn), False
 
 
-def _asyncgen_branch(stmts, catcher_name):
-    if len(stmts) != 2 or not isinstance(stmts[0], ast.ClassDef) or not isinstance(stmts[1], ast.FunctionDef):
+def _asyncgen_branch(stmts, catcher_name, marker):
+    """class + `def catch_wrapper` [+ `catch_wrapper.<marker> = True`, the attribute the branch TEST looks for,
+    so that a decorator stacked on top takes this branch again]"""
+    if len(stmts) not in (2, 3) or not isinstance(stmts[0], ast.ClassDef) or not isinstance(stmts[1], ast.FunctionDef):
         raise Unsupported("async generator branch")
-    cls, fn = stmts
+    sets_marker = False
+    if len(stmts) == 3:
+        m = stmts[2]
+        if not (isinstance(m, ast.Assign) and len(m.targets) == 1 and isinstance(m.targets[0], ast.Attribute)
+                and U(m.targets[0].value) == stmts[1].name and isinstance(m.value, ast.Constant) and m.value.value is True):
+            raise Unsupported("async generator branch, third statement: " + U(m))
+        if m.targets[0].attr != marker:
+            raise Unsupported("the wrapper is marked with %r but the branch test looks for %r" % (m.targets[0].attr, marker))
+        sets_marker = True
+    cls, fn = stmts[0], stmts[1]
     if [U(b) for b in cls.bases] != ["AsyncGenerator"] or cls.keywords or cls.decorator_list:
         raise Unsupported("wrapper class bases: " + U(cls)[:80])
     ms = _methods(cls)
@@ -303,7 +372,7 @@ def _asyncgen_branch(stmts, catcher_name):
     if U(fn.args) != "*args, **kwargs" or [U(s) for s in _strip_doc(fn.body)] != \
             ["gen = function(*args, **kwargs)", "return %s(gen)" % cls.name]:
         raise Unsupported("async generator catch_wrapper: " + U(fn))
-    return True, "asendTry", "raiseStopAsyncIteration"
+    return True, "asendTry", "raiseStopAsyncIteration", _fn_kind(fn), sets_marker
 
 
 def generate():
@@ -355,7 +424,8 @@ def generate():
             raise Unsupported("Catcher.__aexit__ is not `return self.__exit__(type_, value, traceback_, _frames=<n>)`: " + U(axb[0]))
         async_frames = axc.keywords[0].value.value
 
-        tests, effects, depth_incr, ret_expr, sync_frames, onerror_test = _exit(ms["__exit__"])
+        tests, effects, depth_incr, ret_expr, sync_frames, onerror_test, store = _exit(ms["__exit__"])
+        flag_store = _flag_store(tree, store)
         term, typ = Tr({"reraise": ("reraise", "bool")}).tr(ret_expr)
         if typ != "bool":
             raise Unsupported("__exit__ return expression is not boolean")
@@ -378,17 +448,41 @@ def generate():
         shapes = []
         node = cb[2]
         wrapper_names = set()
+        KIND_OF_PRED = {"iscoroutinefunction": "coroutine", "isgeneratorfunction": "generator",
+                        "isasyncgenfunction": "asyncgen"}
+        markers = set()
+        atoms_of = []
         while True:
-            if not isinstance(node, ast.If) or not (isinstance(node.test, ast.Call) and U(node.test.args[0]) == "function"
-                                                    and len(node.test.args) == 1):
+            if not isinstance(node, ast.If):
                 raise Unsupported("branch test: " + U(node)[:60])
-            pred = U(node.test.func)
+            # the test: `is<kind>function(function)` [or getattr(function, "<marker>", False)], a disjunction
+            disj = node.test.values if isinstance(node.test, ast.BoolOp) and isinstance(node.test.op, ast.Or) else [node.test]
+            atoms, preds, marker = [], [], None
+            for d in disj:
+                if isinstance(d, ast.Call) and len(d.args) == 1 and not d.keywords and U(d.args[0]) == "function" \
+                        and U(d.func) in KIND_OF_PRED:
+                    atoms.append(".isKind .%s" % KIND_OF_PRED[U(d.func)])
+                    preds.append(U(d.func))
+                elif isinstance(d, ast.Call) and U(d.func) == "getattr" and len(d.args) == 3 and not d.keywords \
+                        and U(d.args[0]) == "function" and isinstance(d.args[1], ast.Constant) \
+                        and isinstance(d.args[1].value, str) and isinstance(d.args[2], ast.Constant) and d.args[2].value is False:
+                    atoms.append(".hasMarker")
+                    marker = d.args[1].value
+                    markers.add(marker)
+                else:
+                    raise Unsupported("branch test: " + U(node.test)[:90])
+            if len(preds) != 1:
+                raise Unsupported("branch test without exactly one is*function predicate: " + U(node.test)[:90])
+            pred = preds[0]
+            atoms_of.append(atoms)
             if pred == "isasyncgenfunction":
-                sh = _asyncgen_branch(node.body, cname)
+                sh = _asyncgen_branch(node.body, cname, marker)
                 wrapper_names.add(node.body[1].name)
             else:
                 if len(node.body) != 1 or not isinstance(node.body[0], (ast.FunctionDef, ast.AsyncFunctionDef)):
                     raise Unsupported("branch body of " + pred)
+                if marker is not None:
+                    raise Unsupported("marker test outside the async generator branch")
                 sh = _wrapper_fn(node.body[0], cname)
                 wrapper_names.add(node.body[0].name)
             shapes.append((pred,) + sh)
@@ -398,8 +492,11 @@ def generate():
             if len(node.orelse) != 1 or not isinstance(node.orelse[0], ast.FunctionDef):
                 raise Unsupported("else branch")
             shapes.append(("",) + _wrapper_fn(node.orelse[0], cname))
+            atoms_of.append([])
             wrapper_names.add(node.orelse[0].name)
             break
+        if len(markers) > 1:
+            raise Unsupported("several marker attributes: %s" % sorted(markers))
         if len(wrapper_names) != 1:
             raise Unsupported("wrapper functions carry different names: %s" % sorted(wrapper_names))
         wname = wrapper_names.pop()
@@ -425,7 +522,18 @@ def generate():
         body += "/-- the branches of `Catcher.__call__`, in source order -/\n"
         body += "def shapes : List Shape := [\n" + ",\n".join(
             "  { test := %s, isAsync := %s, inner := .%s, after := .%s }" % (
-                lean_chars(p), "true" if a else "false", i, f) for p, a, i, f in shapes) + "]\n\n"
+                lean_chars(p), "true" if a else "false", i, f) for p, a, i, f, _k, _m in shapes) + "]\n\n"
+        body += "/-- per branch of `Catcher.__call__` (source order): the test as a disjunction of atoms, the KIND of\n" \
+                "    function object the `catch_wrapper` defined there is (syntactic: async / own yield), and whether\n" \
+                "    the branch sets the marker attribute its test looks for on that wrapper -/\n"
+        body += "def branches : List Branch := [\n" + ",\n".join(
+            "  { atoms := [%s], wrapperKind := .%s, setsMarker := %s }" % (", ".join(at), k, "true" if m else "false")
+            for at, (_p, _a, _i, _f, k, m) in zip(atoms_of, shapes)) + "]\n\n"
+        body += "/-- `functools.update_wrapper(catch_wrapper, function)`: the wrapper's `__dict__` is updated with the\n" \
+                "    decorated function's, so a marker attribute travels outwards through a stack of decorators -/\n"
+        body += "def wrapperCopiesDict : Bool := true\n\n"
+        body += "/-- the guard flag is an attribute of `%s` -/\n" % store
+        body += "def flagStore : FlagStore := .%s\n\n" % flag_store
         body += "/-- `AsyncGenCatchWrapper.athrow` is `return await self._gen.athrow(*args, **kwargs)` -/\n"
         body += "def athrowPassThrough : Bool := true\n"
         body += "/-- `AsyncGenCatchWrapper.aclose` is `return await self._gen.aclose()` -/\n"
